@@ -4,11 +4,7 @@
 EXTENDS Inst
 CONSTANTS MaxCoef, MaxLen, MaxWidth
 VARIABLES cs, w, phase
-RECURSIVE Pow2(_)
-Pow2(k) == IF k = 0 THEN 1 ELSE 2 * Pow2(k - 1)
-RECURSIVE Bits(_,_)
-Bits(width, k) == IF Pow2(k) >= width + 1 THEN k ELSE Bits(width, k + 1)        \* ceil(log2(width+1))
-RefCoefs(width) == LET nb == Bits(width, 0) IN [ i \in 1..nb |-> IF i = nb THEN width - Pow2(i - 1) + 1 ELSE Pow2(i - 1) ]
+\* RefCoefs (Inst.tla): powers of two with a capped last coefficient
 Init == cs = <<>> /\ w = 0 /\ phase = 0
 Next == \/ phase = 0 /\ phase' = 1 /\ w' = 0 /\ \E k \in 0..MaxLen : cs' \in [1..k -> 1..MaxCoef]
         \/ phase = 0 /\ phase' = 2 /\ cs' = <<>> /\ w' \in 1..MaxWidth
